@@ -211,6 +211,15 @@ func (r *runner) build() error {
 		if sc.Multi {
 			ext = []string{"1.2.3.4", "1.2.3.5"}
 		}
+		if sc.Fault == "filtered" {
+			// every external address is one that must not be published (IPv6 link-local): the socket opened for the lookup
+			// stays with the gatherer, which has to close it
+			nets = []ice.NetworkType{ice.NetworkTypeUDP6}
+			ext = []string{"fe80::1"}
+			if sc.Multi {
+				ext = []string{"fe80::1", "fe80::2"}
+			}
+		}
 		opts = append(opts, ice.WithAddressRewriteRules(ice.AddressRewriteRule{External: ext, AsCandidateType: ice.CandidateTypeServerReflexive,
 			Mode: ice.AddressRewriteReplace}))
 	case "relay", "relay-tcp":
